@@ -260,3 +260,194 @@ Section MutexProofs.
     exists l1, (l2 ++ e1), e2. rewrite E1, E2. repeat (rewrite <- app_assoc; cbn [app]). reflexivity.
   Qed.
 End MutexProofs.
+
+(* ========================================================================================== *)
+Section LocksetProofs.
+  Variable thr : root -> nat.
+  Variable multi : nat -> bool.
+
+  Lemma lock_wf_app : forall a b, lock_wf (a ++ b) -> lock_wf b.
+  Proof. induction a as [|e a IH]; intros b H; [exact H | destruct H as (_ & H); auto]. Qed.
+
+  (* mutual exclusion *)
+  Lemma both_eq : forall x t m' m, Nat.eqb x t && Nat.eqb m' m = true -> x = t /\ m' = m.
+  Proof. intros x t m' m H. apply andb_true_iff in H. destruct H as (A & B). apply Nat.eqb_eq in A, B. auto. Qed.
+
+  Lemma held_excl : forall tr t u m w w', lock_wf tr -> t <> u ->
+    held tr t m = Some w -> held tr u m = Some w' -> w = false /\ w' = false.
+  Proof.
+    induction tr as [|[x a] older IH]; intros t u m w w' Hwf Hne Ht Hu; [discriminate|].
+    destruct Hwf as (Hl & Hwf). destruct a as [m' w0 | m' | | ]; cbn in Ht, Hu; try (eapply IH; eassumption).
+    - unfold legal in Hl; cbn in Hl. destruct Hl as (_ & Hl).
+      destruct (Nat.eqb x t && Nat.eqb m' m) eqn:E1; destruct (Nat.eqb x u && Nat.eqb m' m) eqn:E2.
+      + apply both_eq in E1, E2. destruct E1, E2. congruence.
+      + apply both_eq in E1. destruct E1; subst. inversion Ht; subst. eapply Hl; [|exact Hu]. congruence.
+      + apply both_eq in E2. destruct E2; subst. inversion Hu; subst. destruct (Hl t w) as (A & B); auto.
+      + eapply IH; eassumption.
+    - destruct (Nat.eqb x t && Nat.eqb m' m) eqn:E1; [discriminate|].
+      destruct (Nat.eqb x u && Nat.eqb m' m) eqn:E2; [discriminate|]. eapply IH; eassumption.
+  Qed.
+
+  (* a lock stays held across a segment unless its holder releases it there *)
+  Lemma held_persist_or : forall q older t m w, lock_wf (q ++ older) -> held older t m = Some w ->
+    held (q ++ older) t m = Some w \/ exists q2 q1, q = q2 ++ (t, Rel m) :: q1.
+  Proof.
+    induction q as [|[x a] q IH]; intros older t m w Hwf Hh; [left; exact Hh|].
+    cbn in Hwf. destruct Hwf as (Hl & Hwf).
+    destruct (IH older t m w Hwf Hh) as [Hk | (q2 & q1 & E)].
+    2:{ right. exists ((x, a) :: q2), q1. rewrite E. reflexivity. }
+    destruct a as [m' w0 | m' | | ]; cbn; auto.
+    - destruct (Nat.eqb_spec x t) as [->|]; destruct (Nat.eqb_spec m' m) as [->|]; cbn; auto.
+      unfold legal in Hl; cbn in Hl. destruct Hl as (Hn & _). congruence.
+    - destruct (Nat.eqb_spec x t) as [->|]; destruct (Nat.eqb_spec m' m) as [->|]; cbn; auto.
+      right. exists [], q. reflexivity.
+  Qed.
+
+  (* a lock held after a segment was held before it or was acquired inside it *)
+  Lemma held_origin : forall q older t m w, held (q ++ older) t m = Some w ->
+    held older t m = Some w \/ exists q2 q1, q = q2 ++ (t, Acq m w) :: q1.
+  Proof.
+    induction q as [|[x a] q IH]; intros older t m w Hh; [left; exact Hh|].
+    cbn in Hh.
+    assert (held (q ++ older) t m = Some w -> held older t m = Some w \/ exists q2 q1, (x, a) :: q = q2 ++ (t, Acq m w) :: q1) as K.
+    { intros Hk. destruct (IH older t m w Hk) as [|(q2 & q1 & E)]; [left; auto|].
+      right. exists ((x, a) :: q2), q1. rewrite E. reflexivity. }
+    destruct a as [m' w0 | m' | | ]; auto.
+    - destruct (Nat.eqb_spec x t) as [->|]; destruct (Nat.eqb_spec m' m) as [->|]; cbn in Hh; auto.
+      inversion Hh; subst. right. exists [], q. reflexivity.
+    - destruct (Nat.eqb_spec x t) as [->|]; destruct (Nat.eqb_spec m' m) as [->|]; cbn in Hh; auto. discriminate.
+  Qed.
+
+  Lemma shares_lock_elim : forall a b, shares_lock a b = true ->
+    exists m md1 md2, In (m, md1) (a_locks a) /\ In (m, md2) (a_locks b) /\ (md1 = LW \/ md2 = LW).
+  Proof.
+    intros a b H. unfold shares_lock in H. apply existsb_exists in H. destruct H as ([m1 md1] & H1 & H).
+    apply existsb_exists in H. destruct H as ([m2 md2] & H2 & H). cbn in H.
+    apply andb_true_iff in H. destruct H as (E & W). apply Nat.eqb_eq in E. subst m2.
+    exists m1, md1, md2. repeat split; auto.
+    destruct md1, md2; cbn in W; auto; discriminate.
+  Qed.
+
+  (* (iii) lockset race freedom: under lockset_ok, in every execution that respects mutex
+     semantics and is described by the table, two conflicting accesses by different threads
+     (not both atomic) are never unordered: between them lies a release by the first thread
+     followed by an acquisition of the same mutex by the second, or the first thread's Spawn. *)
+  Theorem lockset_race_free : forall tbl tr,
+    lockset_ok thr multi tbl = true -> lock_wf tr -> consistent thr multi tbl tr ->
+    forall p3 t2 b r2 p2 t1 a r1 p1,
+      tr = p3 ++ (t2, Acc b r2) :: p2 ++ (t1, Acc a r1) :: p1 ->
+      t1 <> t2 -> racy a b = true -> ordered_between t1 t2 p2.
+  Proof.
+    intros tbl tr Hok Hwf (C1 & C2 & C3) p3 t2 b r2 p2 t1 a r1 p1 E Hne Hracy.
+    assert (tr = (p3 ++ (t2, Acc b r2) :: p2) ++ (t1, Acc a r1) :: p1) as E1
+      by (rewrite E, <- app_assoc; reflexivity).
+    destruct (C1 _ _ _ _ _ E1) as (Ia & Ra & La).
+    destruct (C1 _ _ _ _ _ E) as (Ib & Rb & Lb).
+    assert (may_par thr multi r1 r2 = true) as Hpar.
+    { apply (C2 t1 a r1 t2 b r2); auto; rewrite E; apply in_or_app; right; [right; apply in_or_app; right; left|left]; reflexivity. }
+    unfold lockset_ok in Hok. apply andb_true_iff in Hok. destruct Hok as (_ & Hok).
+    rewrite forallb_forall in Hok. specialize (Hok a Ia). rewrite forallb_forall in Hok. specialize (Hok b Ib).
+    unfold racy in Hracy. apply andb_true_iff in Hracy. destruct Hracy as (Hc & Hat).
+    unfold pair_ok in Hok. rewrite Hc in Hok. cbn in Hok.
+    assert (roots_par thr multi a b = true) as Hrp.
+    { unfold roots_par. apply existsb_exists. exists r1. split; auto. apply existsb_exists. exists r2. auto. }
+    rewrite Hrp in Hok. cbn in Hok. apply negb_true_iff in Hat. rewrite Hat in Hok. cbn in Hok.
+    rewrite orb_false_r in Hok.
+    apply orb_true_iff in Hok. destruct Hok as [Hok | Hib].
+    1: apply orb_true_iff in Hok; destruct Hok as [Hsh | Hia].
+    - (* a common lock *)
+      destruct (shares_lock_elim a b Hsh) as (m & md1 & md2 & I1 & I2 & W).
+      destruct (La m md1 I1) as (w1 & H1 & M1). destruct (Lb m md2 I2) as (w2 & H2 & M2).
+      assert (w1 = true \/ w2 = true) as Wt by (destruct W; [left; apply M1 | right; apply M2]; auto).
+      pose proof (lock_wf_app _ _ (eq_ind _ lock_wf Hwf _ E1)) as Hwf1. destruct Hwf1 as (_ & Hwf1).
+      pose proof (lock_wf_app _ _ (eq_ind _ lock_wf Hwf _ E)) as Hwf2. destruct Hwf2 as (_ & Hwf2).
+      destruct (held_origin p2 _ t2 m w2 H2) as [Hold | (q2 & q1 & Ep2)].
+      + cbn in Hold. destruct (held_excl p1 t1 t2 m w1 w2 Hwf1 Hne H1 Hold) as (-> & ->). destruct Wt; discriminate.
+      + rewrite Ep2, <- app_assoc in Hwf2. cbn in Hwf2. apply lock_wf_app in Hwf2. destruct Hwf2 as (Hl & Hwf3).
+        unfold legal in Hl; cbn in Hl. destruct Hl as (_ & Hl).
+        assert (held ((t1, Acc a r1) :: p1) t1 m = Some w1) as H1' by exact H1.
+        destruct (held_persist_or q1 _ t1 m w1 Hwf3 H1') as [Hk | (q1b & q1a & Eq1)].
+        * destruct (Hl t1 w1) as (-> & ->); auto. destruct Wt; discriminate.
+        * left. exists m, w2, q2, q1b, q1a. rewrite Ep2, Eq1. reflexivity.
+    - (* the older access is an Init-phase access: the newer one follows the Spawn *)
+      destruct (C3 _ _ _ _ _ E1 Hia) as (_ & S). right. eapply (S p3 t2 b r2 p2); auto.
+    - (* the newer access cannot be an Init-phase access of another thread *)
+      destruct (C3 _ _ _ _ _ E Hib) as (S & _). exfalso. apply Hne.
+      apply (S t1 a r1). apply in_or_app. right. left. reflexivity.
+  Qed.
+End LocksetProofs.
+
+(* ========================================================================================== *)
+Section ProgressProofs.
+  Variable State : Type.
+  Variable pstep : State -> nat -> State.
+  Variable enabled : State -> nat -> bool.
+  Variable terminated : State -> bool.
+  Variable measure : State -> nat.
+  Variable Inv : State -> Prop.
+  Variable threads : list nat.
+
+  Hypothesis H_dec : forall s t, Inv s -> enabled s t = true -> measure (pstep s t) < measure s.
+  Hypothesis H_noop : forall s t, enabled s t = false -> pstep s t = s.
+  Hypothesis H_inv : forall s t, Inv s -> Inv (pstep s t).
+  Hypothesis H_live : forall s, Inv s -> terminated s = false -> exists t, In t threads /\ enabled s t = true.
+  Hypothesis H_quiet : forall s t, Inv s -> terminated s = true -> enabled s t = false.
+
+  Notation prun := (prun State pstep).
+  Notation effective := (effective State pstep enabled).
+
+  Lemma prun_inv : forall sched s, Inv s -> Inv (prun s sched).
+  Proof. induction sched as [|t r IH]; intros s H; cbn; [exact H | apply IH, H_inv, H]. Qed.
+
+  (* (iv-a) in ANY schedule at most `measure s` steps are effective *)
+  Theorem progress_bound : forall sched s, Inv s -> effective s sched + measure (prun s sched) <= measure s.
+  Proof.
+    unfold Conc.prun. induction sched as [|t r IH]; intros s H; cbn; [lia|].
+    destruct (enabled s t) eqn:E.
+    - pose proof (H_dec s t H E). pose proof (IH (pstep s t) (H_inv s t H)). lia.
+    - rewrite (H_noop s t E). pose proof (IH s H). lia.
+  Qed.
+
+  Lemma measure_mono : forall sched s, Inv s -> measure (prun s sched) <= measure s.
+  Proof. intros. pose proof (progress_bound sched s H). lia. Qed.
+
+  Lemma round_decreases : forall round s t, Inv s -> In t round -> enabled s t = true ->
+    measure (prun s round) < measure s.
+  Proof.
+    induction round as [|x r IH]; intros s t H Hin He; [contradiction|]. change (prun s (x :: r)) with (prun (pstep s x) r).
+    destruct (enabled s x) eqn:E.
+    - pose proof (H_dec s x H E). pose proof (measure_mono r (pstep s x) (H_inv s x H)). lia.
+    - rewrite (H_noop s x E). destruct Hin as [->|Hin]; [congruence|]. eapply IH; eauto.
+  Qed.
+
+  Lemma terminated_stays : forall sched s, Inv s -> terminated s = true -> prun s sched = s.
+  Proof.
+    induction sched as [|t r IH]; intros s H Ht; [reflexivity|]. change (prun s (t :: r)) with (prun (pstep s t) r).
+    rewrite (H_noop s t (H_quiet s t H Ht)). auto.
+  Qed.
+
+  Lemma prun_app : forall a b s, prun s (a ++ b) = prun (prun s a) b.
+  Proof. intros. unfold Conc.prun. apply fold_left_app. Qed.
+
+  (* (iv-b) every fair schedule terminates: `measure s` rounds, each scheduling every thread at
+     least once (in any order, with any repetitions), end in a terminated state *)
+  Theorem fair_terminates : forall rounds s, Inv s ->
+    Forall (fun r => incl threads r) rounds -> measure s <= List.length rounds ->
+    terminated (prun s (concat rounds)) = true.
+  Proof.
+    induction rounds as [|r rs IH]; intros s H Hf Hm; cbn [concat].
+    - change (prun s []) with s. destruct (terminated s) eqn:T; [reflexivity|].
+      destruct (H_live s H T) as (t & _ & E). pose proof (H_dec s t H E). cbn in Hm. lia.
+    - rewrite prun_app. inversion Hf as [|? ? Hr Hrs]; subst.
+      destruct (terminated s) eqn:T.
+      + rewrite (terminated_stays r s H T). rewrite (terminated_stays (concat rs) s H T). exact T.
+      + destruct (H_live s H T) as (t & Hin & E).
+        pose proof (round_decreases r s t H (Hr t Hin) E). cbn in Hm.
+        apply IH; [apply prun_inv; auto | auto | lia].
+  Qed.
+
+  (* no deadlock: a run that is not terminated can always be extended by an effective step *)
+  Theorem no_deadlock : forall sched s, Inv s -> terminated (prun s sched) = false ->
+    exists t, In t threads /\ enabled (prun s sched) t = true.
+  Proof. intros. apply H_live; [apply prun_inv; auto | auto]. Qed.
+End ProgressProofs.
